@@ -1,1 +1,129 @@
-//! placeholder
+//! Harnesses compiled inside `crate::datagram` (C03, C11, C14, C16, C17).
+#![allow(dead_code, unused_imports, missing_docs)]
+use super::*;
+use crate::varint::VarInt;
+use crate::verif_kani::spec;
+
+/// Modular: checked against `VarInt::size`'s contract only.
+#[kani::proof_for_contract(Datagram::header_size)]
+#[kani::stub_verified(VarInt::size)]
+pub fn c_datagram_header_size() {
+    let q: QStreamId = kani::any();
+    let n = Datagram::header_size(q);
+    kani::cover!(n == 8);
+    kani::cover!(n == 1);
+}
+
+/// Modular: checked against `Datagram::header_size`'s contract only.
+#[kani::proof_for_contract(Datagram::write_size)]
+#[kani::stub_verified(Datagram::header_size)]
+pub fn c_datagram_write_size() {
+    let q: QStreamId = kani::any();
+    let payload: [u8; 8] = kani::any();
+    let len: usize = kani::any();
+    kani::assume(len <= 8);
+    let d = Datagram::new(q, &payload[..len]);
+    let _ = d.write_size();
+}
+
+/// For every quarter stream id (1/2/4/8-byte encodings), every payload of length <= P and every
+/// destination size: `write` succeeds iff the buffer can hold `write_size`, returns exactly that,
+/// emits `varint(qid) || payload` and nothing else, leaves a too-small buffer untouched; `read`
+/// of the output yields the same id and a payload that is exactly the remaining bytes (zero-copy).
+fn datagram_roundtrip<const P: usize, const N: usize>() {
+    let q: QStreamId = kani::any();
+    let pbytes: [u8; P] = kani::any();
+    let plen: usize = kani::any();
+    kani::assume(plen <= P);
+    let d = Datagram::new(q, &pbytes[..plen]);
+    let hdr = spec::varint_len(q.into_u64());
+    assert!(d.write_size() == hdr + plen);
+    assert!(Datagram::header_size(q) == hdr);
+
+    let cap: usize = kani::any();
+    kani::assume(cap <= N);
+    let init: [u8; N] = kani::any();
+    let mut out = init;
+    let res = d.write(&mut out[..cap]);
+    assert!(res.is_ok() == (cap >= hdr + plen));
+    let i: usize = kani::any();
+    kani::assume(i < N);
+    match res {
+        Ok(n) => {
+            assert!(n == hdr + plen);
+            if i < hdr {
+                assert!(out[i] == spec::varint_byte(q.into_u64(), i));
+            } else if i < n {
+                assert!(out[i] == pbytes[i - hdr]);
+            } else {
+                assert!(out[i] == init[i]);
+            }
+            match Datagram::read(&out[..n]) {
+                Ok(back) => {
+                    assert!(back.qstream_id() == q);
+                    assert!(back.payload().len() == plen);
+                    assert!(plen == 0 || back.payload().as_ptr() == out[hdr..].as_ptr());
+                    // the session the datagram is attributed to is the sender's
+                    assert!(back.qstream_id().into_session_id().into_u64() == 4 * q.into_u64());
+                }
+                Err(_) => panic!("decoding an encoded datagram failed"),
+            }
+        }
+        Err(_) => {
+            assert!(out[i] == init[i]);
+        }
+    }
+    kani::cover!(res.is_ok() && hdr == 8 && plen == P);
+    kani::cover!(res.is_ok() && hdr == 1 && plen == 0);
+    kani::cover!(res.is_err() && cap + 1 == hdr + plen);
+}
+
+#[kani::proof]
+#[kani::unwind(10)]
+pub fn p_datagram_roundtrip_16() {
+    datagram_roundtrip::<16, 26>();
+}
+
+#[kani::proof]
+#[kani::unwind(10)]
+pub fn p_datagram_roundtrip_1200() {
+    datagram_roundtrip::<1200, 1210>();
+}
+
+/// Every byte string of length <= 12 offered as a QUIC datagram: `Ok` iff it starts with a
+/// complete varint that is a valid quarter stream id (<= 2^60-1); the payload is everything after
+/// it (never altered, merged or truncated); otherwise H3_DATAGRAM_ERROR. No panic.
+#[kani::proof]
+#[kani::unwind(10)]
+pub fn p_datagram_read_total() {
+    let b: [u8; 12] = kani::any();
+    let len: usize = kani::any();
+    kani::assume(len <= 12);
+    let got = Datagram::read(&b[..len]);
+    let got_ok = got.is_ok();
+    let complete = len > 0 && len >= spec::varint_len_from_first(b[0]);
+    if complete {
+        let n = spec::varint_len_from_first(b[0]);
+        let v = spec::varint_value(&b, n);
+        match got {
+            Ok(d) => {
+                assert!(v <= spec::QSTREAM_MAX);
+                assert!(d.qstream_id().into_u64() == v);
+                assert!(d.payload().len() == len - n);
+                assert!(len == n || d.payload().as_ptr() == b[n..].as_ptr());
+            }
+            Err(e) => {
+                assert!(v > spec::QSTREAM_MAX);
+                assert!(e.to_code().into_inner() == spec::error_code::H3_DATAGRAM_ERROR);
+            }
+        }
+    } else {
+        match got {
+            Err(e) => { assert!(e.to_code().into_inner() == spec::error_code::H3_DATAGRAM_ERROR); }
+            Ok(_) => panic!("truncated quarter stream id accepted"),
+        }
+    }
+    kani::cover!(got_ok && len == 12);
+    kani::cover!(!got_ok && complete);
+    kani::cover!(!complete && len > 0);
+}
